@@ -209,7 +209,17 @@ def run(ctx):
         kept.append(c)
         # history: definition -> pre -> solve-from-pre  vs  definition -> solve
         if M.solved(o) != M.solved(od):
-            if not (marginal(o) or marginal(od)):
+            differs = not (marginal(o) or marginal(od))
+            if differs:
+                # the solver is not reproducible from run to run (its sums follow the iteration order of Go maps): a structure at the edge of
+                # its iteration budget solves in one run and stops a thousand times above the bound in the next.  The two routes differ
+                # only if one of them always solves and the other never does
+                again = S.run_pipeline(ctx, [dict(c, ViaPre=(k % 2 == 0), Isolate=True, Templates=False) for k in range(8)])
+                via = {M.solved(x) for k, x in enumerate(again) if k % 2 == 0} | {M.solved(o)}
+                direct_ = {M.solved(x) for k, x in enumerate(again) if k % 2 == 1} | {M.solved(od)}
+                differs = not (via & direct_)
+                ctx.coverage["solvability_reruns"] = ctx.coverage.get("solvability_reruns", 0) + 1
+            if differs:
                 ctx.violation("solving from the .inkfempre file %s, solving the definition directly %s" % (
                     "fails" if not M.solved(o) else "succeeds", "fails" if not M.solved(od) else "succeeds"), {"case": c})
                 concrete += 1
